@@ -272,7 +272,9 @@ def execute(sc):
       act = [(t, w) for _, t, w in clients if w > 0] or [(clients[0][1], 0.0)]
       if name in ('uniform', 'uniform_arith'):
         bound = max((t[k].max() - t[k].min()) / (L - 1) for t, _ in act) if wsum > 0 else 0.0
-        tol = 1e-5 * float(np.max(np.abs(exact))) + 1e-5 * bound + 1e-30
+        # float32 rounding of the weighted mean scales with the INPUT magnitudes (they may cancel in the mean)
+        vmax = max(float(np.max(np.abs(t[k]))) for t, _ in act)
+        tol = 1e-5 * max(float(np.max(np.abs(exact))), vmax) + 1e-5 * bound + 1e-30
         if np.max(np.abs(o - exact)) > bound + tol:
           violation('Q3', f'Q3:aggregate-further-than-one-step-from-exact-weighted-mean:{name}',
                     f'{label}: leaf {k} max |agg-mean| {np.max(np.abs(o - exact))} > step bound {bound} (weights {[w for _, _, w in clients]})')
@@ -292,7 +294,8 @@ def execute(sc):
         size = clients[0][1][k].size
         dpad = 1 << max(0, (size - 1).bit_length())
         bound = max(2 * np.linalg.norm(t[k].astype(np.float64)) * math.sqrt(dpad) / (L - 1) for t, _ in act) if wsum > 0 else 0.0
-        if np.linalg.norm(o - exact) > bound * (1 + 1e-4) + 1e-5 * np.linalg.norm(exact) + 1e-30:
+        nmax = max(float(np.linalg.norm(t[k])) for t, _ in act)
+        if np.linalg.norm(o - exact) > bound * (1 + 1e-4) + 1e-5 * max(np.linalg.norm(exact), nmax) + 1e-30:
           violation('Q3', 'Q3:aggregate-outside-norm-bound-of-exact-weighted-mean:rotated',
                     f'{label}: leaf {k} |agg-mean|={np.linalg.norm(o - exact)} bound {bound}')
 
